@@ -49,6 +49,25 @@ fn step_strat() -> impl Strategy<Value = Step> {
 	]
 }
 
+/// Scripts shaped to reach the retraction paths often: (A) the counterparty's claim of an HTLC output confirms and
+/// is reorganised out before / around the HTLC expiry, then the chain runs past the expiry; (B) the node's own
+/// timeout claim confirms after the expiry and is reorganised out, possibly in favour of a late counterparty claim.
+fn patterned_script() -> impl Strategy<Value = Vec<Step>> {
+	let fork = || (prop_oneof![4 => Just(0i8), 1 => Just(1i8)], proptest::collection::vec(prop_oneof![3 => Just(Fate::Drop), 2 => Just(Fate::Conflict), 1 => Just(Fate::Later), 1 => Just(Fate::Same)], 1..3), 1u8..=2).prop_map(|(adj, fates, extra)| Step::ForkTx { adj, fates, extra });
+	let tail = || proptest::collection::vec(step_strat(), 0..4);
+	let a = (0u8..4, any::<u16>(), prop_oneof![Just(Sel::All), Just(Sel::Rev)], 0u8..5, fork(), 1i8..7, sel_strat(), 0u8..7, tail()).prop_map(|(e0, pay, sel, e1, f, delta, sel2, e2, tail)| {
+		let mut v = vec![Step::Mine { sel: Sel::All, empty: e0 }, Step::Claim { pay }, Step::Mine { sel, empty: e1 }, f, Step::ToExpiry { which: 0, delta }, Step::Mine { sel: sel2, empty: e2 }];
+		v.extend(tail);
+		v
+	});
+	let b = (0u8..3, 1i8..5, 0u8..5, fork(), 0u8..3, any::<u16>(), sel_strat(), 0u8..7, tail()).prop_map(|(e0, delta, e1, f, e2, pay, sel2, e3, tail)| {
+		let mut v = vec![Step::Mine { sel: Sel::All, empty: e0 }, Step::ToExpiry { which: 0, delta }, Step::Mine { sel: Sel::All, empty: e1 }, f, Step::Mine { sel: Sel::None, empty: e2 }, Step::Claim { pay }, Step::Mine { sel: sel2, empty: e3 }];
+		v.extend(tail);
+		v
+	});
+	prop_oneof![a.boxed(), b.boxed()]
+}
+
 fn conn_strat() -> impl Strategy<Value = Conn> {
 	prop_oneof![
 		4 => (0u8..11).prop_map(Conn::Helper),
@@ -89,7 +108,7 @@ fn strat(max_steps: usize) -> impl Strategy<Value = Case> {
 		proptest::collection::vec(op_strategy(prefix_weights()), 6..26),
 		prop_oneof![Just(0x8000u16), any::<u16>()],
 		closure,
-		proptest::collection::vec(step_strat(), 4..max_steps),
+		prop_oneof![3 => proptest::collection::vec(step_strat(), 4..max_steps).boxed(), 2 => patterned_script().boxed()],
 	)
 		.prop_map(|(spec, prefix, observed, closure, script)| Scenario { spec, prefix, observed, closure, script });
 	let plans = (prop_oneof![styled_plan().boxed(), mixed_plan().boxed()], proptest::option::weighted(0.6, mixed_plan()), linear_plan()).prop_map(|(a, b, c)| {
